@@ -32,6 +32,16 @@ pub fn gen_cert(key: &[u8; 32], name: &str) -> CertificateDer<'static> {
         .to_owned()
 }
 
+/// A correctly self-signed certificate for `key` whose subject (and issuer) common name is `cn` -
+/// e.g. the text form of somebody else's identity. A name is a claim, not a proof.
+pub fn gen_cert_common_name(key: &[u8; 32], name: &str, cn: &str) -> CertificateDer<'static> {
+    let kp = rcgen_keypair(key);
+    let mut p = rcgen::CertificateParams::new(vec![name.to_owned()]).unwrap();
+    p.distinguished_name = rcgen::DistinguishedName::new();
+    p.distinguished_name.push(rcgen::DnType::CommonName, cn);
+    p.self_signed(&kp).unwrap().der().to_owned()
+}
+
 /// A correctly self-signed certificate for `own_key` whose issuer and subject names carry, as the
 /// bytes of their common name, a complete Ed25519 SubjectPublicKeyInfo for `embedded` - placed
 /// before the certificate's real key in the encoding. Whoever presents it proves possession of
